@@ -13,12 +13,12 @@ const protoPkg = modPath + "/cmd/rdpgw/protocol"
 
 func init() {
 	register(&Property{
-		ID:        "C01",
-		Title:     "No backend connection or relay before the full authorization sequence",
-		DesignRef: "DESIGN.md §3 C01",
-		Technique: "typestate path model of the packet loop over go/ssa (constant propagation on Processor.state, all acyclic paths x all reachable states) + who-may-write/call inventories + dominance rules on main's wiring",
-		LevelText: "Static: the transition relation of the real packet loop is extracted from go/ssa for every reachable value of Processor.state and every packet type, and compared with the MS-TSGU phase table: dial/relay/spawn only in the right phase after the host check, success responses only from the exact predecessor phase followed by the successor store, every error response or out-of-order packet ends the loop, at most one dial per processor. Inventories show state is written only by NewProcessor/Process, a processor runs Process once, client packets are read only by Process, and main wires CheckHost on all paths (CheckPAACookie under the token switch). Decides the loop's control structure for all packet histories; library calls are trusted.",
-		LevelNote: "Trusted: go/ssa construction, net.DialTimeout connecting where told, the parse helpers not touching Processor.state (checked by the who-may-write inventory). Not covered: a second transport re-attaching to a cached legacy Tunnel with the same connection id (outside the quantifier).",
+		ID:          "C01",
+		Title:       "No backend connection or relay before the full authorization sequence",
+		DesignRef:   "DESIGN.md §3 C01",
+		Technique:   "typestate path model of the packet loop over go/ssa (constant propagation on Processor.state, all acyclic paths x all reachable states) + who-may-write/call inventories + dominance rules on main's wiring",
+		LevelText:   "Static: the transition relation of the real packet loop is extracted from go/ssa for every reachable value of Processor.state and every packet type, and compared with the MS-TSGU phase table: dial/relay/spawn only in the right phase after the host check, success responses only from the exact predecessor phase followed by the successor store, every error response or out-of-order packet ends the loop, at most one dial per processor. Inventories show state is written only by NewProcessor/Process, a processor runs Process once, client packets are read only by Process, and main wires CheckHost on all paths (CheckPAACookie under the token switch). Decides the loop's control structure for all packet histories; library calls are trusted.",
+		LevelNote:   "Trusted: go/ssa construction, net.DialTimeout connecting where told, the parse helpers not touching Processor.state (checked by the who-may-write inventory). Not covered: a second transport re-attaching to a cached legacy Tunnel with the same connection id (outside the quantifier).",
 		Explanation: "Model A3: each acyclic SSA path of one loop iteration of (*Processor).Process is abstracted to (start state, packet type, branch decisions, effects RESP/CHECK/DIAL/SPAWN/RELAY/SET, exit); comparisons on Processor.state are evaluated concretely per abstract state; a fixpoint gives the states reachable at the loop head. Each (state, path) is one obligation checked against the phase table. Further rules: who-may-write Processor.state; NewProcessor call sites followed by exactly one Process call outside any loop; readers of the inbound transport; all net.Dial* call sites; main stores CheckHost on every path before the handler is registered.",
 		Assumptions: []string{
 			"one goroutine runs Process per Processor (checked: one Process call per NewProcessor, not in a loop, no go statement on it)",
@@ -652,21 +652,23 @@ func reachWithoutMarkerAvoiding(fn *ssa.Function, target ssa.Instruction, marker
 
 // reachFromWithoutMarkerAvoiding starts at the beginning of block start.
 func reachFromWithoutMarkerAvoiding(start *ssa.BasicBlock, target ssa.Instruction, marker func(ssa.Instruction) bool, g Guard) bool {
-	seen := map[*ssa.BasicBlock]bool{}
-	work := []*ssa.BasicBlock{start}
+	type st struct{ b, pred *ssa.BasicBlock }
+	seen := map[st]bool{}
+	work := []st{{start, nil}}
 	for len(work) > 0 {
-		b := work[0]
+		s := work[0]
 		work = work[1:]
-		if seen[b] {
+		if seen[s] {
 			continue
 		}
-		seen[b] = true
+		seen[s] = true
+		b := s.b
 		blocked := false
 		for _, in := range b.Instrs {
 			if in == target {
 				return true
 			}
-			if marker(in) {
+			if marker(in) || callEstablishes(in, g) {
 				blocked = true
 				break
 			}
@@ -678,11 +680,11 @@ func reachFromWithoutMarkerAvoiding(start *ssa.BasicBlock, target ssa.Instructio
 		if n := len(b.Instrs); n > 0 {
 			ifi, _ = b.Instrs[n-1].(*ssa.If)
 		}
-		for i, s := range b.Succs {
-			if ifi != nil && g != nil && g(ifi.Cond, i == 0) {
+		for i, succ := range b.Succs {
+			if ifi != nil && !edgeOpen(ifi, b, s.pred, i == 0, g) {
 				continue
 			}
-			work = append(work, s)
+			work = append(work, st{succ, b})
 		}
 	}
 	return false
